@@ -156,6 +156,7 @@ def run(chk, repo, tier):
     run_x5(chk, repo)
     run_x6_x7(chk, repo)
     run_x8(chk, repo)
+    run_x9(chk, repo)
 
 
 # names that are fixed on purpose: later transformations look these statements up by name (read and confirmed)
@@ -429,3 +430,49 @@ def run_x8(chk, repo):
                                       'of APGR is gone (findings/C09_remove_iiv_keeps_covariate_effect_demo.py)')
     if n == 0:
         raise AnalysisError('X8: no loop over the statements found in parameter_variability.py')
+
+
+def run_x9(chk, repo):
+    """has_combined_error_model: with the two epsilons e1, e2 of Y and the two candidate quotients c1 = (Y - e1)/(e2 + 1),
+    c2 = (Y - e2)/(e1 + 1), the model is combined iff one of the quotients is free of BOTH epsilons (finite truth table over
+    which epsilons remain in c1 and c2)"""
+    from sa import iterspace as IS
+    from sa import reach
+    from sa.cfg import CFG
+    import itertools
+    X9 = chk.rule('X9', 'has_combined_error_model: true iff one of the two quotients contains neither epsilon (16 cases)', floor=16)
+    em = repo.module('pharmpy.modeling.error')
+    f = em.functions.get('has_combined_error_model')
+    if f is None:
+        raise AnalysisError('has_combined_error_model not found')
+    rets = [r for r in f.node.body if isinstance(r, ast.Return) and r.value is not None]
+    if not rets:
+        raise AnalysisError('X9: final return of has_combined_error_model not found')
+    e = rets[-1].value
+    # the two quotients: locals assigned an expression that divides by (<eps> + 1)
+    quot = [a.targets[0].id for a in walk_no_nested(f.node) if isinstance(a, ast.Assign) and isinstance(a.targets[0], ast.Name)
+            and any(isinstance(b, ast.BinOp) and isinstance(b.op, ast.Div) for b in ast.walk(a.value))]
+    epsn = sorted({x.id for a in walk_no_nested(f.node) if isinstance(a, ast.Assign) and isinstance(a.targets[0], ast.Name)
+                   and a.targets[0].id in quot for x in ast.walk(a.value) if isinstance(x, ast.Name) and x.id.startswith('eps')})
+    setn = [a.targets[0].id for a in walk_no_nested(f.node) if isinstance(a, ast.Assign) and isinstance(a.targets[0], ast.Name)
+            and isinstance(a.value, ast.SetComp)]
+    if len(quot) != 2 or len(epsn) != 2:
+        raise AnalysisError(f'X9: quotients / epsilons of has_combined_error_model not recognised ({quot}, {epsn})')
+    subsets = [frozenset(s_) for r_ in range(3) for s_ in itertools.combinations(('E1', 'E2'), r_)]
+    for s1, s2 in itertools.product(subsets, subsets):
+        env = {epsn[0]: 'E1', epsn[1]: 'E2', f'{quot[0]}.free_symbols': set(s1), f'{quot[1]}.free_symbols': set(s2)}
+        for nm in setn:
+            env[nm] = {'E1', 'E2'}
+        try:
+            got = bool(IS.ev_x(e, env))
+        except Exception as ex:
+            raise AnalysisError(f'X9: return expression not evaluable: {type(ex).__name__} {ex}')
+        want = not s1 or not s2
+        chk.instance(X9, f'epsilons left in the quotients {sorted(s1)} / {sorted(s2)}: combined {got} (wanted {want})')
+        if got != want:
+            chk.violation(X9, em.rel, f.name, f'{unparse(e)[:70]}: {sorted(s1)} / {sorted(s2)} -> {got}',
+                          'a model in which only one epsilon has the combined structure is reported as combined (or a combined '
+                          'one is not recognised): set_combined_error_model returns it unchanged', line=rets[-1].lineno,
+                          witness='Y = F + F**power*EPS_1 + EPS_2 (set_power_on_ruv on one epsilon), then '
+                                  'set_combined_error_model: Y is left as it is')
+            break
